@@ -108,6 +108,17 @@ def _replay_miller(stem, vals):
                 msgs.append('reduce_indices(%r) = %r' % (idx, r.tolist()))
             if len(msgs) > 5:
                 break
+        for q in itertools.product(range(-3, 4), range(-3, 4), range(-4, 5)):
+            u, v_, w = q
+            quad = (u, v_, -(u + v_), w)
+            if not any(quad):
+                continue
+            g = math.gcd(*[abs(i) for i in quad])
+            r = m.reduce_indices(np.array(quad))
+            if not np.array_equal(r, np.array(quad) // g):
+                msgs.append('reduce_indices(%r) = %r, expected %r (Miller-Bravais quadruple)' % (list(quad), r.tolist(), (np.array(quad) // g).tolist()))
+                if len(msgs) > 5:
+                    break
         x3 = np.array([[[2, 4, 6], [3, 3, 9]], [[5, 10, 5], [7, 0, 0]]])
         want3 = np.array([[[1, 2, 3], [1, 1, 3]], [[1, 2, 1], [1, 0, 0]]])
         try:
@@ -588,7 +599,14 @@ def _ParamBox(a, b, c, alpha, beta, gamma, Box=None):
     """a Box whose reported lengths/angles are arbitrary symbolic values (the getters' own contract is C01);
     all other methods are the real ones"""
     vals = dict(a=a, b=b, c=c, alpha=alpha, beta=beta, gamma=gamma)
-    cls = type('ParamBox', (Box,) if Box is not None else (object,), {k: property(lambda self, k=k: vals[k]) for k in vals})
+    ns = {k: property(lambda self, k=k: vals[k]) for k in vals}
+
+    def _missing(self, name):
+        # the stand-in has reported lengths and angles only: a predicate that reads anything else of the cell (its vectors, ...) is outside what this proof models
+        from pyvc.sym import LeftFragment
+        raise LeftFragment('the family predicate reads %r of the cell; the parametrised stand-in only has lengths and angles' % name)
+    ns['__getattr__'] = _missing
+    cls = type('ParamBox', (Box,) if Box is not None else (object,), ns)
     return object.__new__(cls)
 
 
@@ -727,6 +745,85 @@ def family_constructors(E, L):
         except ValueError:
             E.prove('%s.refuses_coincident%s' % (nm, len(args)), True)
     E.canary('family.constructors.canary', a == 1)
+
+# ----------------------------------------------------------------------------
+# bounded: cells of every family in several orientations (the proofs above use a symbolic general cell for the conversions and reported lengths/angles for the
+# predicates; this family ties the two together on real Box objects that are NOT in the constructor's standard orientation)
+
+@group('family.oriented_cells', kind='bounded', files=[MILLER, BOXF, CRYST], functions=['miller.vector_crystal_to_cartesian', 'miller.plane_crystal_to_cartesian', 'Box.ishexagonal', 'Box.identifyfamily'],
+       clause='on right-handed cells of every family in the standard and in rotated orientations: three-index vectors convert to u a + v b + w c and plane normals to the unit reciprocal-lattice '
+              'direction; on hexagonal cells in every orientation the four-index forms are accepted and denote the same direction / normal as the three-index forms; a cell made by a family '
+              'constructor (standard orientation) is identified as its family',
+       rule='7 families x 6 orientations (identity; 30 deg about z; 40 deg about x; 25 deg about y; two general axes) x all index triples in [-2,2]^3 (non-zero); for hexagonal cells also the '
+            'Miller-Bravais quadruple of each triple; oracle: explicit linear combinations and cross products; distinct by (family, orientation, indices); non-trivial = rotated orientation')
+def oriented_cells(tier, seed):
+    from pyvc.native import atomman
+    import numpy as np
+    am = atomman()
+    m = am.tools.miller
+
+    def rot(axis, deg):
+        axis = np.asarray(axis, dtype=float)
+        axis = axis / np.linalg.norm(axis)
+        t = np.radians(deg)
+        K = np.array([[0, -axis[2], axis[1]], [axis[2], 0, -axis[0]], [-axis[1], axis[0], 0]])
+        return np.eye(3) + np.sin(t) * K + (1 - np.cos(t)) * K.dot(K)
+    orients = [('identity', np.eye(3)), ('z30', rot([0, 0, 1], 30)), ('x40', rot([1, 0, 0], 40)), ('y25', rot([0, 1, 0], 25)), ('g1', rot([1, 2, 3], 57)), ('g2', rot([-2, 1, 0.5], 131))]
+    cases = [('cubic', am.Box.cubic(3.3)), ('hexagonal', am.Box.hexagonal(2.9, 4.7)), ('tetragonal', am.Box.tetragonal(2.9, 4.7)), ('rhombohedral', am.Box.trigonal(3.1, 71.0)),
+             ('orthorhombic', am.Box.orthorhombic(3.1, 4.2, 5.3)), ('monoclinic', am.Box.monoclinic(3.1, 4.2, 5.3, 103.0)), ('triclinic', am.Box.triclinic(3.1, 4.2, 5.3, 81, 97, 112))]
+    triples = [t for t in itertools.product(range(-2, 3), repeat=3) if any(t)]
+    fails, samples = [], []
+    evals = nontriv = 0
+    for fam, std in cases:
+        for oname, R in orients:
+            V = std.vects.dot(R.T)
+            try:
+                box = am.Box(vects=V, origin=[0.4, -0.3, 1.1])
+            except Exception as e:
+                fails.append({'obligation': 'oriented.cell', 'key': '%s,%s' % (fam, oname), 'input': V.tolist(), 'detail': 'Box(vects=...) raised %s: %s' % (type(e).__name__, e)})
+                continue
+            a1, a2, a3 = V
+            rec = np.array([np.cross(a2, a3), np.cross(a3, a1), np.cross(a1, a2)]) / a1.dot(np.cross(a2, a3))
+            bad = []
+            if oname == 'identity':
+                try:
+                    got = box.identifyfamily()
+                    if got != fam:
+                        bad.append('identified as %r' % (got,))
+                except Exception as e:
+                    bad.append('identifyfamily raised %s: %s' % (type(e).__name__, e))
+            for t in triples:
+                evals += 1
+                nontriv += oname != 'identity'
+                tv = np.array(t, dtype=float)
+                try:
+                    v3 = m.vector_crystal_to_cartesian(np.array(t), box)
+                    if not np.allclose(v3, tv.dot(V), atol=1e-9):
+                        bad.append('[%d %d %d] -> %r, expected %r' % (t + (np.round(v3, 5).tolist(), np.round(tv.dot(V), 5).tolist())))
+                    n3 = m.plane_crystal_to_cartesian(np.array(t), box)
+                    G = tv.dot(rec)
+                    if not np.allclose(n3, G / np.linalg.norm(G), atol=1e-8):
+                        bad.append('(%d %d %d) normal %r, reciprocal-lattice direction %r' % (t + (np.round(n3, 5).tolist(), np.round(G / np.linalg.norm(G), 5).tolist())))
+                    if fam == 'hexagonal':
+                        q4 = m.vector3to4(tv)
+                        v4 = m.vector_crystal_to_cartesian(q4, box)
+                        if not np.allclose(v4, tv.dot(V), atol=1e-9):
+                            bad.append('four-index vector %r -> %r, three-index form gives %r' % (np.round(q4, 4).tolist(), np.round(v4, 5).tolist(), np.round(tv.dot(V), 5).tolist()))
+                        p4 = m.plane3to4(tv)
+                        n4 = m.plane_crystal_to_cartesian(p4, box)
+                        if not np.allclose(n4, n3, atol=1e-8):
+                            bad.append('four-index plane %r normal %r, three-index form gives %r' % (p4.tolist(), np.round(n4, 5).tolist(), np.round(n3, 5).tolist()))
+                except Exception as e:
+                    bad.append('indices %r: raised %s: %s' % (list(t), type(e).__name__, e))
+                if len(bad) > 2:
+                    break
+            if bad:
+                fails.append({'obligation': 'oriented.post', 'key': '%s,%s' % (fam, oname), 'input': {'vects': V.tolist()}, 'detail': '%s cell, orientation %s: %s' % (fam, oname, '; '.join(bad[:2]))})
+        samples.append({'family': fam, 'orientations': [o for o, _ in orients]})
+    files = {rel: hashlib.sha256(open(os.path.join(REPO, rel), 'rb').read()).hexdigest() for rel in (MILLER, BOXF, CRYST)}
+    return {'family': '7 crystal families x 6 orientations x index triples in [-2,2]^3', 'evaluations': evals, 'distinct_nontrivial': nontriv, 'rule': 'see group rule', 'samples': samples[:2],
+            'failures': fails[:20], 'files': files}
+
 
 # ----------------------------------------------------------------------------
 # callee contracts this property's proofs ASSUME are part of this check (modular verification carries the property only if the assumed contract is itself
